@@ -1656,6 +1656,23 @@ example : ∃ fuel' t, obsOfRef (Ref.runProgram 20 demoHeadErr Ref.initSt).1 = s
   | brk l rs' => rw [hres] at h; simp [refClass] at h
   | cont l rs' => rw [hres] at h; simp [refClass] at h
 
+/-- `(defn mk [] (fn [xs] (def r 0) (for [(def i 0) (< i (len xs)) (set i (+ i 1))] (cond (> (aget xs i) 0)
+(begin (set r (aget xs i)) (break)) nil)) r)) ((mk) [0 5 7])`: an anonymous function whose body has a loop with `break`
+(`Sim.simF_fnZ`), called through a computed head; the harness prints `ok 5 T[]` on all three sides -/
+def demoFnLoop : List Expr :=
+  [.defn "mk" [] none
+     [.fn ["xs"] none
+        [.def_ "r" (.int 0),
+         .for_ none (.def_ "i" (.int 0)) (.call (.sym "<") [.sym "i", .call (.sym "len") [.sym "xs"]])
+           (.set_ "i" (.call (.sym "+") [.sym "i", .int 1]))
+           [.cond [(.call (.sym ">") [.call (.sym "aget") [.sym "xs", .sym "i"], .int 0],
+                    .begin_ [.set_ "r" (.call (.sym "aget") [.sym "xs", .sym "i"]), .break_ none])] .nilLit],
+         .sym "r"]],
+   .call (.call (.sym "mk") []) [.arr [.int 0, .int 5, .int 7]]]
+
+example : FyList demoFnLoop = true := by fy_mem demoFnLoop
+example : FtList demoFnLoop = false := by fy_mem demoFnLoop
+
 /-- **C16's `LazySemantics` on the fragment**: the statement of `Props/C16.lean` (`C16.LazySemantics`, in that
 file's vocabulary) restricted to the programs of F3-lazy. -/
 theorem lazy_semantics_on_F3lazy (p : List Expr) (hp : FtList p = true ∨ FyList p = true) (hwf : Ref.wfList {} p = true)
@@ -1701,7 +1718,7 @@ def InProvedFragment (p : List Expr) : Prop :=
 i.e. using a `fn`/`defn` inside
 an operand of a call (compiled at run time), a self call in
 a directly compiled non-tail position, a self tail call or `break`/`continue` in a nested function that is not a
-`defn` statement of a function body (an anonymous `fn`, a `defn` inside a loop body or an operand), `substitute`,
+`defn`/`fn` statement or last form of a function body (a function under `def`/`set`, inside a loop body or an operand), `substitute`,
 an empty `newScope`, or (together with calls or
 array literals) a binder that re-uses a builtin name. Held by the 3-way `eval` correspondence on
 every run, not by a theorem. -/
@@ -1735,8 +1752,8 @@ def CompileCorrectOutsideProved : Prop := CompileCorrectOn (fun p => ¬ InProved
      (`Sim.force_sim`) — `compile_correct_on_F3lazy`, and in C16's vocabulary `lazy_semantics_on_F3lazy`;
    * F3 — in the same fragments, `apply` and `map` on closure objects and on Go builtins (first-order, `force`,
      `apply`, `map`), over arrays and lists; builtins as values — `compile_correct_on_F3`;
-   * nested functions — a `defn` that is a statement (or the last form) of a function body of F2c may itself have a
-     body of F2c: self tail calls and loops with `break`/`continue` in nested functions, to any depth
+   * nested functions — a `defn` or an anonymous `fn` that is a statement (or the last form) of a function body of F2c
+     may itself have a body of F2c (`Sim.simF_fnZ` for `fn`): self tail calls and loops with `break`/`continue` in nested functions, to any depth
      (`Sim.Fs`, `Sim.simF_defnZ`) — `compile_correct_on_F2c_nested`;
    * computed call heads — the callee of a call may be any operand expression of the fragment
      (`Sim.simF_callE`) — `compile_correct_on_F2heads`;
@@ -1746,8 +1763,8 @@ def CompileCorrectOutsideProved : Prop := CompileCorrectOn (fun p => ¬ InProved
 3. the layout half for `begin`/`cond`/`and`/`or` as before (and `gen_for_layout` for loops).
 
 MISSING (held by the `eval` correspondence only): `CompileCorrectOutsideProved` — `break`/`continue`
-and self tail calls inside anonymous functions (`fn`) and inside `defn`s that are not statements of a function body
-(in loop bodies, in operands), the rest of F2 (`fn`/`defn` inside operands), `substitute`. -/
+and self tail calls inside functions that are not statements or last forms of a function body
+(under `def`/`set`, in loop bodies, in operands), the rest of F2 (`fn`/`defn` inside operands), `substitute`. -/
 theorem compile_correct_partial :
     CompileCorrectOn InProvedFragment
     ∧ (CompileCorrectOutsideProved → CompileCorrect)
